@@ -44,6 +44,7 @@ partial def loop (h out : IO.FS.Stream) (w : World) : IO Unit := do
   if line.isEmpty then return ()
   let (w', o) := step w (line.trimAscii.toString)
   out.putStrLn o
+  out.flush      -- the harness may keep one driver process and talk to it interactively
   loop h out w'
 
 def main : IO Unit := do loop (← IO.getStdin) (← IO.getStdout) {}
